@@ -125,7 +125,7 @@ class RecordingDB : public BuildDB {
 public:
   std::unique_ptr<BuildDB> inner;
   BuildDBDelegate* del = nullptr;
-  std::function<void(const DBRecord&)> onSet;
+  std::function<void(const DBRecord&)> onSet, onBeforeSet;
   std::function<void(uint64_t)> onIteration;
   bool failNextSet = false;
   explicit RecordingDB(std::unique_ptr<BuildDB> i) : inner(std::move(i)) {}
@@ -140,17 +140,16 @@ public:
     return inner->lookupRuleResult(id, key, out, err);
   }
   bool setRuleResult(KeyID id, const Rule& rule, const Result& res, std::string* err) override {
+    DBRecord rec;
+    rec.key = rule.key.str();
+    rec.value.assign(res.value.begin(), res.value.end());
+    rec.sig = res.signature.value;
+    rec.builtAt = res.builtAt;
+    rec.computedAt = res.computedAt;
+    for (auto d : res.dependencies) rec.deps.push_back({del->getKeyForID(d.keyID).str(), d.orderOnly, d.singleUse});
+    if (onBeforeSet) onBeforeSet(rec);
     bool r = inner->setRuleResult(id, rule, res, err);
-    if (r && onSet) {
-      DBRecord rec;
-      rec.key = rule.key.str();
-      rec.value.assign(res.value.begin(), res.value.end());
-      rec.sig = res.signature.value;
-      rec.builtAt = res.builtAt;
-      rec.computedAt = res.computedAt;
-      for (auto d : res.dependencies) rec.deps.push_back({del->getKeyForID(d.keyID).str(), d.orderOnly, d.singleUse});
-      onSet(rec);
-    }
+    if (r && onSet) onSet(rec);
     return r;
   }
   bool buildStarted(std::string* err) override { return inner->buildStarted(err); }
@@ -233,6 +232,7 @@ struct Config {
   std::string dbPath;
   bool resolveForce = false;  // enable cycle resolution by ForceBuild
   bool checkC01 = true, checkC02 = true, checkProto = true, checkC07 = true, checkPersist = true;
+  bool keepDB = false;        // do not delete an existing database file when the session starts (crash recovery)
   bool syncDefault = false;   // default choice at inputsAvailable: false = defer, true = complete synchronously
   std::map<char, std::string> rename;  // spec key -> engine key bytes
 };
@@ -307,7 +307,7 @@ public:
 
   Session(const uv::World& w, const Config& cfg, vj::Result& res) : w(w), cfg(cfg), res(res) {
     for (char c : w.leaves) ext.s[c] = 0;
-    if (this->cfg.useDB) {
+    if (this->cfg.useDB && !this->cfg.keepDB) {
       ::unlink(this->cfg.dbPath.c_str());
       ::unlink((this->cfg.dbPath + "-journal").c_str());
     }
@@ -330,6 +330,8 @@ public:
     return k.size() == 1 ? k[0] : '?';
   }
 
+  std::function<void(const std::string&)> traceSink;  // crashx: streamed log of records and external state
+  void traceExt() { if (traceSink) traceSink("E " + ext.dump()); }
   bool quiet = false;  // suppress verdicts while replaying a prefix that was already judged
   bool dead = false;   // the engine stalled: the session cannot continue
   void violate(const std::string& oracle, const std::string& what) {
@@ -351,6 +353,7 @@ public:
       auto rec = new RecordingDB(std::move(inner));
       rdb = rec;
       rec->onSet = [this](const DBRecord& r) { onSetRuleResult(r); };
+      rec->onBeforeSet = [this](const DBRecord& r) { if (traceSink) traceSink("R " + r.str()); };
       rec->onIteration = [this](uint64_t v) { lastIteration = v; };
       if (!engine->attachDB(std::unique_ptr<BuildDB>(rec), &err)) violate("db-attach-failed", err);
     }
@@ -511,7 +514,7 @@ public:
       }
     }
     std::string v = uv::isLeafKey(t.key) ? uv::leafValue(t.key, ext.s[t.key]) : uv::computeValue(d, t.key, vals, reads);
-    if (!uv::isLeafKey(t.key) && d.validity == 2) ext.o[t.key] = v;
+    if (!uv::isLeafKey(t.key) && d.validity == 2) { ext.o[t.key] = v; traceExt(); }
     bool force = !uv::isLeafKey(t.key) && d.vk == 2;
     t.completed = true;
     completedThisBuild.insert(t.key);
@@ -892,6 +895,7 @@ inline void Session::apply(const Event& ev, BuildObs* out) {
     restart();
     break;
   case 'b': {
+    traceExt();
     BuildObs o = build(ev);
     if (out) *out = o;
     break;
